@@ -448,7 +448,7 @@ def main(argv=None):
             "discarded": m["discarded"],
             "worst_observed_over_tolerance": {k: float("%.3g" % v) for k, v in sorted(m["maxima"].items())},
             "known_finding_hits": {k: v["count"] for k, v in m["known_hits"].items()},
-            "components": COMPONENTS,
+            "components": WORLD_COMPONENTS.get(args.world, COMPONENTS),
             "violating_sessions": len(m["violations"]),
             "workers": args.workers,
             "sigpy_tree_sha": tree_sha(args.root),
@@ -485,8 +485,10 @@ RULES = {}
 SIMTIME_UNIT = {}
 ASSUMPTIONS = {}
 
+WORLD_COMPONENTS = {}
 try:
     from .meta import ASSUMPTIONS, RULES, SIMTIME_UNIT  # noqa
+    from .meta import COMPONENTS as WORLD_COMPONENTS  # noqa
 except Exception:  # pragma: no cover
     pass
 
